@@ -184,35 +184,49 @@ def ssUnsub (g : Nat) (s : St) : St :=
   if (s.gens g).ssDone then s
   else ((s.gens g).ssFins).foldl (fun s p => pUnsubscribe p s) (s.modGen g fun x => { x with ssDone := true, ssFins := [] })
 
+/-- the two comparisons at the end of `reset` -/
+def clearShared (g : Nat) (s : St) : St :=
+  { s with sourceSubscription := if s.sourceSubscription = some g then none else s.sourceSubscription,
+           subject := if s.subject = some g then none else s.subject }
+
 /-- `reset(currentSubject, currentSourceSubscription)` — operator_connectable.go:98-109 -/
-def reset (g : Nat) (s : St) : St :=
-  let s := ssUnsub g s
-  let s := if s.sourceSubscription = some g then { s with sourceSubscription := none } else s
-  if s.subject = some g then { s with subject := none } else s
+def reset (g : Nat) (s : St) : St := clearShared g (ssUnsub g s)
 
 /-! ### downstream subscribers -/
 
+/-- `subscriberImpl.Unsubscribe`'s CAS 0→2 -/
+def casClose (i : Nat) (s : St) : St :=
+  if (s.subs i).status = 0 then s.modSub i fun d => { d with status := 2 } else s
+
+def decRef (s : St) : St := { s with refCount := s.refCount - 1 }
+
+/-- operator_connectable.go:171-175 -/
+def zeroReset (fl : Flags) (g : Nat) (s : St) : St :=
+  if fl.onZero && s.refCount == 0 && !s.flagE && !s.flagC then reset g s else s
+
 /-- Share's teardown (operator_connectable.go:165-178), region T. `sub.Unsubscribe()` is the
     subscriber's own `Unsubscribe`: a CAS 0→2; the nested `Subscription.Unsubscribe` returns at once
-    because this teardown only ever runs as a finalizer of that Subscription (`done` already set). -/
-def teardownT (fl : Flags) (i g : Nat) (s : St) : St :=
-  let s := if (s.subs i).status = 0 then s.modSub i fun d => { d with status := 2 } else s
-  -- [mu]
-  let s := { s with refCount := s.refCount - 1 }
-  if fl.onZero && s.refCount == 0 && !s.flagE && !s.flagC then reset g s else s
+    because this teardown only ever runs as a finalizer of that Subscription (`done` already set).
+    Then [mu] `refCount--` and the reset test. -/
+def teardownT (fl : Flags) (i g : Nat) (s : St) : St := zeroReset fl g (decRef (casClose i s))
+
+/-- finalizer 1: `s.observers.Delete(index)` -/
+def runDel (i : Nat) (o : Option Nat) (s : St) : St :=
+  match o with
+  | some g => s.modGen g fun x => { x with subj := { x.subj with obs := x.subj.obs.erase i } }
+  | none => s
+
+/-- finalizer 2: Share's teardown -/
+def runTear (fl : Flags) (i : Nat) (o : Option Nat) (s : St) : St :=
+  match o with
+  | some g => teardownT fl i g s
+  | none => s
 
 /-- downstream subscriber's `Subscription.Unsubscribe`: finalizers in registration order -/
 def dSubnUnsub (fl : Flags) (i : Nat) (s : St) : St :=
-  let d := s.subs i
-  if d.done then s
-  else
-    let s := s.modSub i fun d => { d with done := true, delFin := none, tearFin := none }
-    let s := match d.delFin with
-      | some g => s.modGen g fun x => { x with subj := { x.subj with obs := x.subj.obs.erase i } }
-      | none => s
-    match d.tearFin with
-    | some g => teardownT fl i g s
-    | none => s
+  if (s.subs i).done then s
+  else runTear fl i (s.subs i).tearFin (runDel i (s.subs i).delFin
+        (s.modSub i fun d => { d with done := true, delFin := none, tearFin := none }))
 
 /-- `subscriberImpl.Unsubscribe` -/
 def dUnsubscribe (fl : Flags) (i : Nat) (s : St) : St :=
@@ -223,126 +237,164 @@ def dNext (i : Nat) (v : Int) (s : St) : St :=
   if (s.subs i).status = 0 then s.modSub i fun d => { d with trace := d.trace ++ [.next v] }
   else s.drop (.next v)
 
+/-- the CAS-guarded delivery of a terminal -/
+def dDeliver (i : Nat) (t : Ev) (s : St) : St :=
+  if (s.subs i).status = 0 then s.modSub i fun d => { d with status := t.code, trace := d.trace ++ [t] }
+  else s.drop t
+
 /-- `subscriberImpl.ErrorWithContext / CompleteWithContext` (subscriber.go:205-241): the
     `Subscription.Unsubscribe` at the end is *not* guarded by the CAS -/
-def dTerm (fl : Flags) (i : Nat) (t : Ev) (s : St) : St :=
-  let s := if (s.subs i).status = 0 then s.modSub i fun d => { d with status := t.code, trace := d.trace ++ [t] }
-           else s.drop t
-  dSubnUnsub fl i s
+def dTerm (fl : Flags) (i : Nat) (t : Ev) (s : St) : St := dSubnUnsub fl i (dDeliver i t s)
 
 /-! ### the connector subject of generation g -/
+
+/-- behavior stores the value before broadcasting (subject_behavior.go `s.last = …`) -/
+def subjStore (conn : Conn) (g : Nat) (v : Int) (s : St) : St :=
+  match conn with
+  | .behavior _ => s.modGen g fun x => { x with subj := { x.subj with last := v } }
+  | _ => s
+
+/-- `broadcastNext` -/
+def bcastNext (g : Nat) (v : Int) (s : St) : St :=
+  ((s.gens g).subj.obs).foldl (fun s i => dNext i v s) s
+
+/-- replay appends after broadcasting and evicts the oldest value beyond the buffer size; the
+    evicted value goes to the drop hook (subject_replay.go:112-118) -/
+def subjBuffer (conn : Conn) (g : Nat) (v : Int) (s : St) : St :=
+  match conn with
+  | .replay n =>
+    if ((s.gens g).subj.buf ++ [v]).length > n then
+      (s.drop (.next (((s.gens g).subj.buf ++ [v]).headD 0))).modGen g fun x =>
+        { x with subj := { x.subj with buf := (x.subj.buf ++ [v]).drop ((x.subj.buf ++ [v]).length - n) } }
+    else s.modGen g fun x => { x with subj := { x.subj with buf := x.subj.buf ++ [v] } }
+  | .replayAll => s.modGen g fun x => { x with subj := { x.subj with buf := x.subj.buf ++ [v] } }
+  | _ => s
 
 /-- `NextWithContext` of the three subjects -/
 def subjNext (conn : Conn) (g : Nat) (v : Int) (s : St) : St :=
   match (s.gens g).subj.status with
-  | .open =>
-    -- behavior stores before broadcasting (subject_behavior.go), replay after (subject_replay.go)
-    let s := match conn with
-      | .behavior _ => s.modGen g fun x => { x with subj := { x.subj with last := v } }
-      | _ => s
-    let s := ((s.gens g).subj.obs).foldl (fun s i => dNext i v s) s
-    match conn with
-    | .replay n =>
-      let vals := (s.gens g).subj.buf ++ [v]
-      if vals.length > n then
-        (s.drop (.next (vals.headD 0))).modGen g fun x => { x with subj := { x.subj with buf := vals.drop (vals.length - n) } }
-      else s.modGen g fun x => { x with subj := { x.subj with buf := vals } }
-    | .replayAll => s.modGen g fun x => { x with subj := { x.subj with buf := x.subj.buf ++ [v] } }
-    | _ => s
+  | .open => subjBuffer conn g v (bcastNext g v (subjStore conn g v s))
   | _ => s.drop (.next v)
+
+/-- `broadcastError / broadcastComplete` -/
+def bcastTerm (fl : Flags) (g : Nat) (t : Ev) (s : St) : St :=
+  ((s.gens g).subj.obs).foldl (fun s i => dTerm fl i t s) s
+
+/-- `unsubscribeAll` -/
+def subjClear (g : Nat) (s : St) : St :=
+  s.modGen g fun x => { x with subj := { x.subj with obs := [] } }
 
 /-- `ErrorWithContext / CompleteWithContext` of the three subjects, then `unsubscribeAll` -/
 def subjTerm (fl : Flags) (g : Nat) (t : Ev) (s : St) : St :=
-  let s := match (s.gens g).subj.status with
-    | .open =>
-      let s := s.modGen g fun x => { x with subj := { x.subj with status := Status.ofTerminal t } }
-      ((s.gens g).subj.obs).foldl (fun s i => dTerm fl i t s) s
-    | _ => s.drop t
-  s.modGen g fun x => { x with subj := { x.subj with obs := [] } }
+  match (s.gens g).subj.status with
+  | .open => subjClear g (bcastTerm fl g t (s.modGen g fun x => { x with subj := { x.subj with status := Status.ofTerminal t } }))
+  | _ => subjClear g (s.drop t)
+
+/-- replay: the stored values first, whatever the status (subject_replay.go:60-62) -/
+def subjReplay (conn : Conn) (g i : Nat) (s : St) : St :=
+  match conn with
+  | .replay _ | .replayAll => ((s.gens g).subj.buf).foldl (fun s v => dNext i v s) s
+  | _ => s
+
+/-- behavior: the last value to a subscriber of an open subject -/
+def subjLast (conn : Conn) (g i : Nat) (s : St) : St :=
+  match conn with
+  | .behavior _ => dNext i (s.gens g).subj.last s
+  | _ => s
+
+/-- register: store the observer, then `subscription.Add(delete entry)` (subscription.go:78-91:
+    the finalizer runs at once when the subscription is already done) -/
+def subjRegister (g i : Nat) (s : St) : St :=
+  if (s.subs i).done then
+    (s.modGen g fun x => { x with subj := { x.subj with obs := x.subj.obs ++ [i] } }).modGen g fun x =>
+      { x with subj := { x.subj with obs := x.subj.obs.erase i } }
+  else (s.modGen g fun x => { x with subj := { x.subj with obs := x.subj.obs ++ [i] } }).modSub i fun d => { d with delFin := some g }
 
 /-- `SubscribeWithContext` of the three subjects with the ready-made subscriber `i` -/
 def subjSubscribe (cfg : Cfg) (g i : Nat) (s : St) : St :=
-  let s := match cfg.conn with
-    | .replay _ | .replayAll => ((s.gens g).subj.buf).foldl (fun s v => dNext i v s) s
-    | _ => s
-  match (s.gens g).subj.status with
-  | .errored e => dTerm cfg.flags i (.error e) s
-  | .completed => dTerm cfg.flags i .complete s
-  | .open =>
-    let s := match cfg.conn with
-      | .behavior _ => dNext i (s.gens g).subj.last s
-      | _ => s
-    let s := s.modGen g fun x => { x with subj := { x.subj with obs := x.subj.obs ++ [i] } }
-    -- subscription.Add(delete entry)  (subscription.go:78-91: runs at once when already done)
-    if (s.subs i).done then s.modGen g fun x => { x with subj := { x.subj with obs := x.subj.obs.erase i } }
-    else s.modSub i fun d => { d with delFin := some g }
+  match ((subjReplay cfg.conn g i s).gens g).subj.status with
+  | .errored e => dTerm cfg.flags i (.error e) (subjReplay cfg.conn g i s)
+  | .completed => dTerm cfg.flags i .complete (subjReplay cfg.conn g i s)
+  | .open => subjRegister g i (subjLast cfg.conn g i (subjReplay cfg.conn g i s))
 
 /-! ### the proxy observer between source and subject (operator_connectable.go:131-157) -/
 
 def pNext (cfg : Cfg) (g : Nat) (v : Int) (s : St) : St :=
   if (s.gens g).pStatus = 0 then subjNext cfg.conn g v s else s.drop (.next v)
 
+/-- the reset / latch decision of the proxy's error and completion callbacks -/
+def pDecide (fl : Flags) (g : Nat) (t : Ev) (s : St) : St :=
+  match t with
+  | .error _ => if fl.onError then reset g s else { s with flagE := true }
+  | _ => if fl.onComplete then reset g s else { s with flagC := true }
+
 def pTerm (cfg : Cfg) (g : Nat) (t : Ev) (s : St) : St :=
-  let s := if (s.gens g).pStatus = 0 then
-      let s := s.modGen g fun x => { x with pStatus := t.code }
-      let s := match t with
-        | .error _ => if cfg.flags.onError then reset g s else { s with flagE := true }
-        | _ => if cfg.flags.onComplete then reset g s else { s with flagC := true }
-      subjTerm cfg.flags g t s
-    else s.drop t
   -- subscriberImpl.Error/Complete end with the proxy's own Subscription.Unsubscribe
-  pSubnUnsub g s
+  if (s.gens g).pStatus = 0 then
+    pSubnUnsub g (subjTerm cfg.flags g t (pDecide cfg.flags g t (s.modGen g fun x => { x with pStatus := t.code })))
+  else pSubnUnsub g (s.drop t)
 
 def pEmit (cfg : Cfg) (g : Nat) (x : Ev) (s : St) : St :=
   match x with
   | .next v => pNext cfg g v s
   | t => pTerm cfg g t s
 
-/-- `source.SubscribeWithContext(ctx, proxy)`: the probe counts the subscription, plays its
-    synchronous prefix, returns its teardown, which observable.go:310 `Add`s to the subscription —
-    and that subscription *is* the proxy (subscriber.go:117-121). -/
-def srcSubscribe (cfg : Cfg) (g : Nat) (s : St) : St :=
-  let k := s.total
-  let s := s.modGen g fun x => { x with upSub := true }
-  let s := (cfg.pre k).foldl (fun s x => pEmit cfg g x s) s
+/-- the probe plays its synchronous prefix -/
+def playPre (cfg : Cfg) (g : Nat) (pre : List Ev) (s : St) : St :=
+  pre.foldl (fun s x => pEmit cfg g x s) s
+
+/-- observable.go:310 `subscription.Add(teardown)` for the upstream subscription — and that
+    subscription *is* the proxy (subscriber.go:117-121) -/
+def upAddTeardown (g : Nat) (s : St) : St :=
   if (s.gens g).pDone then s.modGen g fun x => { x with upTorn := true }
   else s.modGen g fun x => { x with pFin := true }
+
+/-- `source.SubscribeWithContext(ctx, proxy)`: the probe counts the subscription, plays its
+    synchronous prefix, returns its teardown -/
+def srcSubscribe (cfg : Cfg) (g : Nat) (s : St) : St :=
+  upAddTeardown g (playPre cfg g (cfg.pre s.total) (s.modGen g fun x => { x with upSub := true }))
 
 /-- `subscription.Add(teardown)` of observable.go:310 for downstream subscriber i -/
 def addTeardown (fl : Flags) (i g : Nat) (s : St) : St :=
   if (s.subs i).done then teardownT fl i g s else s.modSub i fun d => { d with tearFin := some g }
 
+/-- `observableImpl.SubscribeWithContext` allocates the downstream subscriber -/
+def newSub (s : St) : St :=
+  { s with subs := fun k => if k = s.nsubs then {} else s.subs k, nsubs := s.nsubs + 1 }
+
+/-- `getOrCreateSubject` would create (operator_connectable.go:87) -/
+def needsNew (s : St) : Bool := s.subject.isNone || s.sourceSubscription.isNone
+
+/-- region R1 [mu]: `refCount++`, `getOrCreateSubject` (operator_connectable.go:112-119) -/
+def r1 (cfg : Cfg) (s : St) : St :=
+  if needsNew s then
+    { s with refCount := s.refCount + 1,
+             gens := (fun k => if k = s.ngens then { subj := Subj.new cfg.conn } else s.gens k), ngens := s.ngens + 1,
+             subject := some s.ngens, sourceSubscription := some s.ngens }
+  else { s with refCount := s.refCount + 1 }
+
+/-- `sourceSubscription.AddUnsubscribable(…)` (operator_connectable.go:160): the *shared variable*
+    is read again, without `mu`. `none` = nil dereference, recovered by observable.go:313-317:
+    `Error(observableError)` then `Unsubscribe`; Share's teardown is never registered, so the
+    reference count is not given back. -/
+def r3tail (fl : Flags) (i g : Nat) (s : St) : St :=
+  match s.sourceSubscription with
+  | none => dUnsubscribe fl i (dTerm fl i (.error .nilDeref) { s with panics := s.panics + 1 })
+  | some g' =>
+    addTeardown fl i g
+      (if (s.gens g').ssDone then pUnsubscribe g s else s.modGen g' fun x => { x with ssFins := x.ssFins ++ [g] })
+
+/-- region R3 for the subscriber that created the generation (operator_connectable.go:125-163) -/
+def r3 (cfg : Cfg) (i g : Nat) (s : St) : St :=
+  r3tail cfg.flags i g (srcSubscribe cfg g { s with flagE := false, flagC := false })
+
 /-- `observableImpl.SubscribeWithContext` of the shared observable + the subscribe function of
-    `ShareWithConfig` (operator_connectable.go:111-179) -/
+    `ShareWithConfig` (operator_connectable.go:111-179): R1, R2 (subscribe to the subject), R3 -/
 def subscribe (cfg : Cfg) (s : St) : St :=
-  let i := s.nsubs
-  let s := { s with subs := fun k => if k = i then {} else s.subs k, nsubs := s.nsubs + 1 }
-  -- R1 [mu]: refCount++ ; getOrCreateSubject
-  let s := { s with refCount := s.refCount + 1 }
-  let fresh := s.subject.isNone || s.sourceSubscription.isNone
-  let g := if fresh then s.ngens else s.subject.getD 0
-  let s := if fresh then
-      { s with gens := (fun k => if k = s.ngens then { subj := Subj.new cfg.conn } else s.gens k), ngens := s.ngens + 1,
-               subject := some s.ngens, sourceSubscription := some s.ngens }
-    else s
-  -- R2: currentSubject.SubscribeWithContext(subscriberCtx, destination)
-  let s := subjSubscribe cfg g i s
-  -- R3
-  if fresh then
-    let s := { s with flagE := false, flagC := false }
-    let s := srcSubscribe cfg g s
-    -- `sourceSubscription.AddUnsubscribable(…)`: the *shared variable* is read again, without `mu`
-    match s.sourceSubscription with
-    | none =>
-      -- nil dereference; recovered by observable.go:313-317: Error(observableError) then Unsubscribe.
-      -- Share's teardown is never registered: the reference count is not given back.
-      let s := { s with panics := s.panics + 1 }
-      dUnsubscribe cfg.flags i (dTerm cfg.flags i (.error .nilDeref) s)
-    | some g' =>
-      let s := if (s.gens g').ssDone then pUnsubscribe g s
-               else s.modGen g' fun x => { x with ssFins := x.ssFins ++ [g] }
-      addTeardown cfg.flags i g s
-  else addTeardown cfg.flags i g s
+  if needsNew s then
+    r3 cfg s.nsubs s.ngens (subjSubscribe cfg s.ngens s.nsubs (r1 cfg (newSub s)))
+  else
+    addTeardown cfg.flags s.nsubs (s.subject.getD 0) (subjSubscribe cfg (s.subject.getD 0) s.nsubs (r1 cfg (newSub s)))
 
 /-! ### events -/
 
